@@ -23,6 +23,7 @@ def reducer_batch(items):
         pending_first = {}
         # run_init records are logged right after start(); ticks of that run may precede them in the log
         inits = {r["run"]: r["state"] for r in tr if r["e"] == "run_init"}
+        init_now = {r["run"]: r.get("now", 0) for r in tr if r["e"] == "run_init"}
         seen_runs = set()
         for r in tr:
             if r["e"] != "tick" or "state" not in r:
@@ -30,14 +31,15 @@ def reducer_batch(items):
             fo = r["run"] not in seen_runs
             seen_runs.add(r["run"])
             ticks.append({"tick": r["tick"], "now": r["now"], "post": r["state"], "pubs": r["pubs"],
-                          "first_of_run": fo, "run_init": inits.get(r["run"], r["state"])})
+                          "first_of_run": fo, "run_init": inits.get(r["run"], r["state"]),
+                          "run_now": init_now.get(r["run"], r["now"])})
         init = {"running": False, "steps": {s: dict(EMPTY_STEP) for s in cfg["order"]}}
         traces.append({"cfg": cfg, "init": init, "ticks": ticks})
     return {"dev": DEV, "traces": traces}
 
 
 def random_walk(prog, rng: random.Random, max_steps=60, ext_menu=(), p_cancel=0.03, start_uid="s0",
-                weights=None):
+                weights=None, batch=False, sleep_ms=0):
     """One seeded implementation-driven walk: at every quiescence point choose one enabled driver action."""
     s = en.EngineSystem(prog)
     sched = []
@@ -46,7 +48,7 @@ def random_walk(prog, rng: random.Random, max_steps=60, ext_menu=(), p_cancel=0.
         for _ in range(max_steps):
             if s.outcome is not None:
                 break
-            acts = s.enabled(ext_menu=ext_menu, allow_cancel=p_cancel > 0)
+            acts = s.enabled(ext_menu=ext_menu, allow_cancel=p_cancel > 0, batch=batch, sleep_ms=sleep_ms)
             if not acts:
                 break
             ws = []
@@ -70,7 +72,7 @@ def random_walk(prog, rng: random.Random, max_steps=60, ext_menu=(), p_cancel=0.
 
 
 def explore(prog, ext_menu=(), max_depth=14, max_paths=300, rng=None, allow_cancel=False, max_ext=2, drain=True,
-            timeout_advance=True):
+            timeout_advance=True, batch=False, sleep_ms=0):
     """Bounded DFS over driver schedules of the real engine, pruned on (projected runner state, open gates,
     inputs used, virtual time).  Every path is executed from scratch on a fresh system; returns
     [(trace, schedule)]."""
@@ -86,7 +88,7 @@ def explore(prog, ext_menu=(), max_depth=14, max_paths=300, rng=None, allow_canc
             s.start("s0")
             ok = True
             for c in prefix:
-                if c not in s.enabled(ext_menu=ext_menu, allow_cancel=allow_cancel, max_ext=max_ext):
+                if c not in s.enabled(ext_menu=ext_menu, allow_cancel=allow_cancel, max_ext=max_ext, batch=batch, sleep_ms=sleep_ms):
                     ok = False
                     break
                 s.apply(c)
@@ -96,7 +98,7 @@ def explore(prog, ext_menu=(), max_depth=14, max_paths=300, rng=None, allow_canc
                 if k in seen and len(sched) >= len(prefix) and sched:
                     break
                 seen.add(k)
-                acts = s.enabled(ext_menu=ext_menu, allow_cancel=allow_cancel, max_ext=max_ext)
+                acts = s.enabled(ext_menu=ext_menu, allow_cancel=allow_cancel, max_ext=max_ext, batch=batch, sleep_ms=sleep_ms)
                 if not timeout_advance:
                     acts = [a for a in acts if not (a[0] == "advance" and a[2] == "timeout")]
                 if not acts:
@@ -126,7 +128,7 @@ def run_to_end(s, max_rounds=12):
         s.apply(acts[0])
 
 
-def replay_then_resume(prog, sched, ext_menu=()):
+def replay_then_resume(prog, sched, ext_menu=(), timeout_probe=False):
     """Execute `sched` on a fresh system, serialise the context through JSON, resume it with Context.from_dict on the
     same workflow object and drive the resumed run to its end.  Returns the whole trace (runs 1 and 2)."""
     import json as _json
@@ -146,6 +148,13 @@ def replay_then_resume(prog, sched, ext_menu=()):
             s.log({"e": "resumed", "ok": True})
         except Exception as ex:  # noqa: BLE001
             s.log({"e": "resumed", "ok": False, "err": type(ex).__name__ + ":" + str(ex)[:120]})
+            return s.trace
+        if timeout_probe and prog.get("timeout") is not None and s.outcome is None and s.rig.open_gates():
+            # leave the resumed bodies running and let the workflow timeout elapse: the resumed run must time out too
+            t_res = s.now_ms()
+            s.apply(["advance", t_res + int(prog["timeout"] * 1000) + 1000, "x"])
+            s.log({"e": "resume_timeout_probe", "timed_out": (s.outcome or {"kind": ""})["kind"] == "timedout",
+                   "outcome": (s.outcome or {"kind": "live"})["kind"]})
             return s.trace
         run_to_end(s)
         s.log({"e": "resume_end", "outcome": (s.outcome or {"kind": "live"})["kind"],
